@@ -8,8 +8,9 @@
    - [bdigs]/[zstr]/[bval] digit strings in a base (10 for decimals, 2..36 for base formats)
    - [group3]     3-digit grouping (sigfig decimate with spacer=',' spacing=3 on the integer part;
                   Python's format(n, ','))
-   - [rne_div], [b64_of_rat]  round-half-even and the correctly rounded binary64 value of a
-                  positive rational (normal range), used where the code computes in floats. *)
+   - [rne_div], [round_float], [b64_of_rat]  round-half-even, rounding of a positive rational to P
+                  digits in a base, and its instance the correctly rounded binary64 value (normal
+                  range), used where the code computes in floats or prints them with '%E'. *)
 From Coq Require Import ZArith NArith List Bool Lia.
 From NP Require Import Model.PyBase.
 Import ListNotations.
@@ -45,15 +46,23 @@ Definition rne_div (n d : Z) : Z :=
   let r := n mod d in
   if (d <? 2 * r) || ((2 * r =? d) && Z.odd q) then q + 1 else q.
 
-(* ---------- binary64 ---------- *)
-(* correctly rounded (nearest, ties to even) binary64 value of n/d, n,d > 0, as (m, e) with
-   value m * 2^e and 2^52 <= m < 2^53.  Subnormals and overflow are not modelled. *)
-Definition b64_of_rat (n d : Z) : Z * Z :=
-  let e0 := Z.log2 n - Z.log2 d - 53 in
-  let q0 := if 0 <=? e0 then n / (d * 2 ^ e0) else (n * 2 ^ (- e0)) / d in
-  let e := if 2 ^ 53 <=? q0 then e0 + 1 else e0 in
-  let m := if 0 <=? e then rne_div n (d * 2 ^ e) else rne_div (n * 2 ^ (- e)) d in
-  if m =? 2 ^ 53 then (2 ^ 52, e + 1) else (m, e).
+(* ---------- floating point rounding ---------- *)
+(* n / (d * b^e) written with non-negative powers only *)
+Definition scA (b n e : Z) : Z := if 0 <=? e then n else n * b ^ (- e).
+Definition scB (b d e : Z) : Z := if 0 <=? e then d * b ^ e else d.
+
+(* n/d (n, d > 0) rounded to P digits in base b, nearest with ties to even: (m, e) with value
+   m * b^e and b^(P-1) <= m < b^P.  The exponent is guessed from the digit counts and corrected
+   once; a carry out of the rounding (m = b^P) moves to the next exponent. *)
+Definition round_float (b P n d : Z) : Z * Z :=
+  let e0 := nbdig b n - nbdig b d - P in
+  let q0 := scA b n e0 / scB b d e0 in
+  let e := if b ^ P <=? q0 then e0 + 1 else e0 in
+  let m := rne_div (scA b n e) (scB b d e) in
+  if m =? b ^ P then (b ^ (P - 1), e + 1) else (m, e).
+
+(* correctly rounded binary64 value of n/d (normal range: subnormals and overflow are not modelled) *)
+Definition b64_of_rat (n d : Z) : Z * Z := round_float 2 53 n d.
 
 Definition rat_of_b64 (me : Z * Z) : Z * Z :=
   let (m, e) := me in if 0 <=? e then (m * 2 ^ e, 1) else (m, 2 ^ (- e)).
